@@ -31,6 +31,44 @@ type C20Case struct {
 	// through -log, "env" through CURLREVSHELL_LOG.  Failures must still be
 	// reported to the operator, not only to that file.
 	GoodLog string `json:"good_log,omitempty"`
+	// Src is the shape of an existing (not missing) Ctrl+I source: "" function
+	// files with content, "empty-file" one empty .sh file, "empty-dir",
+	// "dir-with-empty" a directory holding an empty .sh and a .subr next to a
+	// normal file.  None of these is a fault: the run must succeed.
+	Src string `json:"src,omitempty"`
+}
+
+// ctrlISource creates the Ctrl+I source of a case below dir and returns its path.
+func ctrlISource(dir string, c C20Case, many bool) string {
+	switch c.Src {
+	case "empty-file":
+		src := filepath.Join(dir, "funcs.sh")
+		os.WriteFile(src, nil, 0o644)
+		return src
+	case "empty-dir":
+		src := filepath.Join(dir, "ctrl-i-src")
+		os.Mkdir(src, 0o755)
+		return src
+	case "dir-with-empty":
+		src := filepath.Join(dir, "ctrl-i-src")
+		os.Mkdir(src, 0o755)
+		os.WriteFile(filepath.Join(src, "a.sh"), nil, 0o644)
+		os.WriteFile(filepath.Join(src, "b.subr"), nil, 0o644)
+		os.WriteFile(filepath.Join(src, "c.sh"), []byte("# TABDOC: c does a thing\nc() { echo 3; }\n"), 0o644)
+		return src
+	}
+	if !many {
+		src := filepath.Join(dir, "funcs.sh")
+		os.WriteFile(src, []byte("f() { echo hi; }\n"), 0o644)
+		return src
+	}
+	// a directory of function files that takes a moment to convert
+	src := filepath.Join(dir, "ctrl-i-src")
+	os.Mkdir(src, 0o755)
+	for i := 0; i < 40; i++ {
+		os.WriteFile(filepath.Join(src, fmt.Sprintf("f%02d.sh", i)), []byte(fmt.Sprintf("# TABDOC: f%02d does a thing\nf%02d() { echo %d; }\n", i, i, i)), 0o644)
+	}
+	return src
 }
 
 var allFaults = []string{"no-tty", "listen-syntax", "listen-unresolvable", "listen-port-range", "listen-in-use",
@@ -167,20 +205,18 @@ func runC20(t testing.TB, c C20Case) (key, what string, classes []string) {
 	if c.Flag != "" {
 		args = append(args, c.Flag)
 		if c.Flag == "-print-ctrl-i" && !has("ctrli-missing") {
-			src := filepath.Join(dir, "funcs.sh")
-			os.WriteFile(src, []byte("f() { echo hi; }\n"), 0o644)
-			args = append(args, "-ctrl-i", src)
+			args = append(args, "-ctrl-i", ctrlISource(dir, c, false))
+			if c.Src != "" {
+				classes = append(classes, "ctrl-i-source-"+c.Src)
+			}
 		}
 	}
 	if strings.HasPrefix(c.Exit, "tab-") && c.Flag == "" && !has("ctrli-missing") {
-		// Ctrl+I (Tab) has something to insert: a directory of function files
-		// that takes a moment to convert
-		src := filepath.Join(dir, "ctrl-i-src")
-		os.Mkdir(src, 0o755)
-		for i := 0; i < 40; i++ {
-			os.WriteFile(filepath.Join(src, fmt.Sprintf("f%02d.sh", i)), []byte(fmt.Sprintf("# TABDOC: f%02d does a thing\nf%02d() { echo %d; }\n", i, i, i)), 0o644)
+		// Ctrl+I (Tab) has a source to convert
+		args = append(args, "-ctrl-i", ctrlISource(dir, c, true))
+		if c.Src != "" {
+			classes = append(classes, "ctrl-i-source-"+c.Src)
 		}
-		args = append(args, "-ctrl-i", src)
 	}
 	// which faults can the program reach, given the order of start-up steps
 	reach := map[string]bool{}
@@ -441,6 +477,16 @@ func c20Cases(thorough bool) []C20Case {
 			n++
 		}
 	}
+	// Ctrl+I sources that exist but hold nothing (or nothing but empty
+	// files): printed, and converted at a Tab, like any other
+	for _, src := range []string{"empty-file", "empty-dir", "dir-with-empty"} {
+		for _, tty := range []bool{true, false} {
+			cs = append(cs, C20Case{TTY: tty, Flag: "-print-ctrl-i", Src: src, Termios: toggles[n%len(toggles)]})
+			n++
+		}
+		cs = append(cs, C20Case{TTY: true, Src: src, Exit: "tab-ctrl-d", Termios: toggles[n%len(toggles)]},
+			C20Case{TTY: true, Src: src, Exit: "tab-ctrl-c", GOGC: "1"})
+	}
 	// singles
 	for _, f := range allFaults {
 		for _, tty := range []bool{true, false} {
@@ -535,6 +581,7 @@ func TestC20Random(t *testing.T) {
 		}
 		c.GOGC = rapid.SampledFrom([]string{"", "", "1", "10"}).Draw(rt, "gogc")
 		c.GoodLog = rapid.SampledFrom([]string{"", "", "flag", "env"}).Draw(rt, "goodlog")
+		c.Src = rapid.SampledFrom([]string{"", "", "", "empty-file", "empty-dir", "dir-with-empty"}).Draw(rt, "src")
 		nf := rapid.IntRange(0, 2).Draw(rt, "nfaults")
 		seen := map[string]bool{}
 		for i := 0; i < nf; i++ {
